@@ -82,8 +82,13 @@ func main() {
 		run("purity report", func() (string, bool) { return purityProbe(repo, "v3/report") })
 		run("template", func() (string, bool) { return templateProbe(repo) })
 		run("report", func() (string, bool) { return reportProbe(st, repo) })
-		run("score v3", func() (string, bool) { return scoreProbe(u, st, repo) })
-		run("score v2", func() (string, bool) { return v2ScoreProbe(u, st, repo) })
+		run("score v3", func() (string, bool) { return scoreProbe(u, st, repo, "value") })
+		run("score v2", func() (string, bool) { return v2ScoreProbe(u, st, repo, "value") })
+		for _, asp := range []string{"grid", "neutral", "views"} {
+			asp := asp
+			run("score v3 "+asp, func() (string, bool) { return scoreProbe(u, st, repo, asp) })
+			run("score v2 "+asp, func() (string, bool) { return v2ScoreProbe(u, st, repo, asp) })
+		}
 		run("robust v3", func() (string, bool) { return robustProbe(repo, "v3/metric") })
 		run("robust v2", func() (string, bool) { return robustProbe(repo, "v2/metric") })
 		run("names", func() (string, bool) { return namesProbe(u, repo) })
